@@ -1,4 +1,5 @@
 import HranoModel.Lemmas.Merge
+import HranoModel.Lemmas.Template
 import HranoModel.Model.App
 /-!
 C02 — the register reports each day's foods, ingredients and signed totals exactly.
@@ -85,6 +86,41 @@ theorem register_days (rc : RCfg) (db : Book) (days : List LogDay)
     App.regOutput rc db days = (days.map (fun d => renderDefault rc d db)).flatten := by
   simp [App.regOutput, App.perDay, h1, h2, h3, h4]
 
+/-- **The byte layout of the default rendering follows the template in the source.**  The hand-expanded rendering the model
+    (and the driver of the correspondence check) uses is, for every configuration, day and book, the template
+    `register.defaultTemplate` written over the `printf` formats, `shorten` widths and totals line that `tools/facts` reads from
+    the source on every run, under the modelled `fmt.Sprintf`. -/
+theorem default_layout_follows_template (cfg : RCfg) (d : LogDay) (db : Book) :
+    renderDefault cfg d db = Tmpl.renderDefaultT cfg d db := by
+  simp only [renderDefault, Tmpl.renderDefaultT, Tmpl.row_d0, Tmpl.row_d1, Tmpl.row_d2, Tmpl.head_d, Tmpl.widths_d,
+    List.getD_cons_zero, List.getD_cons_succ]
+  simp [List.append_assoc]
+  cases (reportItem db cfg d).snd <;> rfl
+
+/-- the same for `register.leftAlignedTemplate` -/
+theorem left_layout_follows_template (cfg : RCfg) (d : LogDay) (db : Book) :
+    renderLeft cfg d db = Tmpl.renderLeftT cfg d db := by
+  simp only [renderLeft, Tmpl.renderLeftT, Tmpl.row_l0, Tmpl.row_l1, Tmpl.row_l2, Tmpl.head_l]
+  simp [List.append_assoc]
+  cases (reportItem db cfg d).snd <;> rfl
+
+/-- the same for the old reporter (`reg_reporter.go`) and the formats of its five `fmt.Fprintf` calls -/
+theorem old_layout_follows_source (cfg : RCfg) (d : LogDay) (db : Book) :
+    renderOld cfg d db = Tmpl.renderOldT cfg d db := by
+  simp only [renderOld, Tmpl.renderOldT, Tmpl.row_o0, Tmpl.row_o1, Tmpl.row_o2, Tmpl.row_o3, Tmpl.row_o4]
+  rw [Tmpl.head_o]
+  simp [List.append_assoc]
+
+/-- every regenerated format uses only the verbs the model of `fmt.Sprintf` knows, with as many verbs as the row has arguments -/
+theorem template_formats_well_formed :
+    Tmpl.wellFormed (Facts.regDefaultFormats.getD 0 []) 2 = true ∧ Tmpl.wellFormed (Facts.regDefaultFormats.getD 1 []) 2 = true
+    ∧ Tmpl.wellFormed (Facts.regDefaultFormats.getD 2 []) 4 = true
+    ∧ Tmpl.wellFormed (Facts.regLeftFormats.getD 0 []) 2 = true ∧ Tmpl.wellFormed (Facts.regLeftFormats.getD 1 []) 2 = true
+    ∧ Tmpl.wellFormed (Facts.regLeftFormats.getD 2 []) 4 = true
+    ∧ Tmpl.wellFormed (Facts.regOldFormats.getD 0 []) 1 = true ∧ Tmpl.wellFormed (Facts.regOldFormats.getD 1 []) 2 = true
+    ∧ Tmpl.wellFormed (Facts.regOldFormats.getD 2 []) 2 = true ∧ Tmpl.wellFormed (Facts.regOldFormats.getD 3 []) 2 = true
+    ∧ Tmpl.wellFormed (Facts.regOldFormats.getD 4 []) 4 = true := by decide +kernel
+
 /-! non-vacuity: a day with a repeated food, a negative quantity, a food the book defines and an element
     that is logged directly and also comes from a recipe -/
 def demoBook : Book := [([115], [⟨[99], 40⟩, ⟨[102], -2⟩])]     -- s: c 40, f -2
@@ -93,5 +129,11 @@ def demoDay : LogDay := ⟨⟨2021, 1, 24⟩, mergeDay [⟨[115], 2⟩, ⟨[99],
 example : Elements.names demoDay.elements = [[115], [99], [98]] := by decide
 example : (reportItem demoBook {} demoDay).2.map (fun ts => ts.map (fun t => (t.name, t.pos, t.neg, t.sum)))
     = some [([98], 0, 0, 0), ([99], 45, 0, 45), ([102], 0, -2, -2)] := by decide +kernel
+
+-- the regenerated food-row format on a name of two runes (a two-byte rune counts once for the padding) and a value
+example : Tmpl.sprintf (Facts.regDefaultFormats.getD 0 []) [[0xC3, 0xA9, 120], [49]]
+    = [9, 0xC3, 0xA9, 120] ++ List.replicate 25 32 ++ [32, 58, 49] := by decide +kernel
+example : (Tmpl.renderDefaultT {} demoDay demoBook).length = (renderDefault {} demoDay demoBook).length
+    ∧ (renderDefault {} demoDay demoBook).length > 300 := by decide +kernel
 
 end Hrano.C02
